@@ -163,6 +163,10 @@ def canon(node):
             bad = False
             for a in posargs:
                 if isinstance(a, ast.Starred):
+                    if _parenthesised_star(a):
+                        # f(b, (*l)): the 3.4 tree keeps the starred expression as a positional argument, the 3.6 tree
+                        # cannot tell it from f(b, *l)
+                        raise ValueError("fenced: parenthesised starred argument")
                     if star is not None:
                         bad = True
                     star = a.value
@@ -202,6 +206,27 @@ def canon(node):
     if isinstance(node, int):
         return "n%d" % node
     return "?" + repr(node)
+
+
+_SRC_LINES = []
+
+
+def _parenthesised_star(node):
+    """True if the * of this Starred node directly follows an opening parenthesis which itself follows a comma or another
+    opening parenthesis (so it is not the parenthesis of the call)."""
+    try:
+        line = _SRC_LINES[node.lineno - 1]
+    except IndexError:
+        return False
+    i = node.col_offset - 1
+    while i >= 0 and line[i] in " \t\f":
+        i -= 1
+    if i < 0 or line[i] != "(":
+        return False
+    i -= 1
+    while i >= 0 and line[i] in " \t\f":
+        i -= 1
+    return i < 0 or line[i] in ",(" or line[i] == "\\"
 
 
 def trailing_comma_after_star(src):
@@ -258,6 +283,8 @@ def do_ast(req):
         return {"ok": False, "exc": type(e).__name__, "msg": str(e.msg)}
     except (ValueError, OverflowError, RecursionError, MemoryError) as e:
         return {"ok": False, "exc": type(e).__name__, "msg": ""}
+    global _SRC_LINES
+    _SRC_LINES = req["src"].replace("\r\n", "\n").replace("\r", "\n").split("\n")
     if trailing_comma_after_star(req["src"]):
         return {"ok": True, "tree": None, "fenced": "fenced: trailing comma after * or ** (3.6 grammar)"}
     try:
